@@ -178,8 +178,8 @@ def profile_bounds(job, wd, inputs, cfiles, inc, dfl):
     picks = (picks + rest)[:want]
     mx = {}
     def one(vals):
-        cmd = ['cbmc'] + cfiles + inc + dfl + ['-DVERIF_FIXED=' + ','.join('%dULL' % v for v in vals), '--unwind', '80', '--no-malloc-may-fail', '--drop-unused-functions',
-               '--no-pointer-check', '--no-bounds-check', '--no-div-by-zero-check', '--no-standard-checks', '--verbosity', '9', '--program-only']
+        cmd = ['cbmc'] + cfiles + inc + dfl + ['-DVERIF_FIXED=' + ','.join('%dULL' % v for v in vals), '--unwind', str(job.get('profile_unwind', 80)), '--no-malloc-may-fail', '--drop-unused-functions',
+               '--no-pointer-check', '--no-bounds-check', '--no-div-by-zero-check', '--no-standard-checks', '--verbosity', '9', '--program-only'] + [a for a in job.get('cbmc_extra', []) if a != '--no-array-field-sensitivity']
         rc, out, t = sh(cmd, timeout=180, mem_gb=8)
         loc = {}
         if rc == 'timeout': return loc
@@ -222,6 +222,7 @@ def parse_cbmc(out):
 def run_cbmc_once(job, wd, tier, cfiles, inc, dfl, bounds, names, tmo):
     us = ['%s:%d' % (nm, bounds[nm]) for nm in names if nm in bounds]
     cmd = ['cbmc'] + cfiles + inc + dfl + CBMC_BASE + ['--unwind', str(job.get('unwind', 1))]
+    us += ['%s:%d' % (fn, b) for fn, b in job.get('recursion', [])]      # recursion depth bounds, stated per job and checked by the recursion unwinding assertion
     if us: cmd += ['--unwindset', ','.join(us)]
     solver = job.get('solver', 'cadical')
     if solver == 'kissat': cmd += ['--external-sat-solver', 'kissat']
@@ -413,6 +414,7 @@ def main():
     jobs = [j for j in JOBS[prop] if a.tier in j.get('tiers', ('quick', 'thorough'))]
     if a.only: jobs = [j for j in jobs if re.search(a.only, j['name'])]
     results = []
+    if 'VERIF_WORKERS' not in os.environ and PROPS.get(a.prop, {}).get('workers'): a.workers = min(a.workers, PROPS[a.prop]['workers'])   # memory-heavy job sets run fewer at a time
     with cf.ThreadPoolExecutor(max_workers=max(1, min(a.workers, len(jobs)))) as ex:
         futs = {ex.submit(do_job, prop, j, a.tier, seed, a.keep): j for j in jobs}
         for f in cf.as_completed(futs):
